@@ -276,4 +276,196 @@ theorem stackAlloc_unlocked {c : Cfg} {s : State} {size al : Nat}
   simp only [hsz, hlock, ↓reduceIte, Bool.false_eq_true]
   rfl
 
+/-! ### Ghost layer: which blocks are live -/
+
+/-- a byte range `[addr, addr+size)`. -/
+structure Block where
+  addr : Nat
+  size : Nat
+  deriving Repr, DecidableEq
+
+def Block.Disjoint (a b : Block) : Prop := a.addr + a.size ≤ b.addr ∨ b.addr + b.size ≤ a.addr
+
+/-- something that occupies stack memory: a client block or an `mjStackFrame` record. -/
+inductive Obj where
+  | blk (b : Block)
+  | frm (f : Frame)
+  deriving Repr
+
+/-- the bytes an object occupies. -/
+def Obj.ext : Obj → Block
+  | .blk b => b
+  | .frm f => ⟨f.addr, FRAME⟩
+
+def framesOf : List Obj → List Frame
+  | [] => []
+  | .blk _ :: rest => framesOf rest
+  | .frm f :: rest => f :: framesOf rest
+
+/-- what `mj_freeStack` releases: everything allocated since (and including) the latest mark. -/
+def dropToFrame : List Obj → List Obj
+  | [] => []
+  | .blk _ :: rest => dropToFrame rest
+  | .frm _ :: rest => rest
+
+def headAddr : List Frame → Nat
+  | [] => 0
+  | f :: _ => f.addr
+
+/-- every record links to the one below it, and no record sits at address 0. -/
+def FramesOK : List Frame → Prop
+  | [] => True
+  | f :: rest => f.pbase = headAddr rest ∧ f.addr ≠ 0 ∧ FramesOK rest
+
+/-- Downward layout of the stack objects (most recent first): each object starts at or above `lo`,
+    and what was allocated before it lies at or above its end (for a frame record: at or above the
+    saved top, which is at or above the end of the record). -/
+def Chain (bot : Nat) : Nat → List Obj → Prop
+  | lo, [] => lo ≤ bot
+  | lo, .blk b :: rest => lo ≤ b.addr ∧ Chain bot (b.addr + b.size) rest
+  | lo, .frm f :: rest => lo ≤ f.addr ∧ f.addr + FRAME ≤ f.top ∧ Chain bot f.top rest
+
+/-- Upward layout of the arena blocks (most recent first). -/
+def AChain (base : Nat) : Nat → List Block → Prop
+  | hi, [] => base ≤ hi
+  | hi, b :: rest => b.addr + b.size ≤ hi ∧ AChain base b.addr rest
+
+theorem chain_mono {bot lo lo' : Nat} {l : List Obj} (h : lo' ≤ lo) (hc : Chain bot lo l) (hb : lo ≤ bot → lo' ≤ bot := fun h' => Nat.le_trans h h') :
+    Chain bot lo' l := by
+  cases l with
+  | nil => exact hb hc
+  | cons o rest =>
+    cases o with
+    | blk b => exact ⟨Nat.le_trans h hc.1, hc.2⟩
+    | frm f => exact ⟨Nat.le_trans h hc.1, hc.2⟩
+
+theorem chain_le {bot : Nat} : ∀ {lo : Nat} {l : List Obj}, Chain bot lo l → lo ≤ bot
+  | _, [], h => h
+  | _, .blk b :: rest, h => by
+    have := chain_le h.2
+    have := h.1
+    omega
+  | _, .frm f :: rest, h => by
+    have := chain_le h.2.2
+    have := h.1; have := h.2.1
+    omega
+
+theorem chain_bounds {bot : Nat} : ∀ {lo : Nat} {l : List Obj}, Chain bot lo l →
+    ∀ o ∈ l, lo ≤ o.ext.addr ∧ o.ext.addr + o.ext.size ≤ bot
+  | _, [], _, o, ho => by simp at ho
+  | lo, .blk b :: rest, h, o, ho => by
+    rcases List.mem_cons.1 ho with rfl | hr
+    · exact ⟨h.1, chain_le h.2⟩
+    · have ih := chain_bounds h.2 o hr
+      have h1 := h.1
+      exact ⟨by omega, ih.2⟩
+  | lo, .frm f :: rest, h, o, ho => by
+    rcases List.mem_cons.1 ho with rfl | hr
+    · have := chain_le h.2.2
+      have := h.2.1
+      exact ⟨h.1, by simp only [Obj.ext]; omega⟩
+    · have ih := chain_bounds h.2.2 o hr
+      have h1 := h.1; have h2 := h.2.1
+      exact ⟨by omega, ih.2⟩
+
+/-- consecutive layout implies: every object ends at or below the start of every earlier one. -/
+theorem chain_pairwise {bot : Nat} : ∀ {lo : Nat} {l : List Obj}, Chain bot lo l →
+    l.Pairwise (fun a b => a.ext.addr + a.ext.size ≤ b.ext.addr)
+  | _, [], _ => List.Pairwise.nil
+  | _, .blk b :: rest, h => by
+    refine List.Pairwise.cons ?_ (chain_pairwise h.2)
+    intro o ho
+    exact (chain_bounds h.2 o ho).1
+  | _, .frm f :: rest, h => by
+    refine List.Pairwise.cons ?_ (chain_pairwise h.2.2)
+    intro o ho
+    have h1 := (chain_bounds h.2.2 o ho).1
+    have h2 := h.2.1
+    show f.addr + FRAME ≤ o.ext.addr
+    omega
+
+theorem chain_drop {bot : Nat} {f : Frame} {fr : List Frame} : ∀ {lo : Nat} {l : List Obj},
+    Chain bot lo l → framesOf l = f :: fr →
+    lo ≤ f.addr ∧ f.addr + FRAME ≤ f.top ∧ Chain bot f.top (dropToFrame l) ∧ framesOf (dropToFrame l) = fr
+  | _, [], _, hf => by simp [framesOf] at hf
+  | lo, .blk b :: rest, h, hf => by
+    have ih := chain_drop (lo := b.addr + b.size) h.2 (by simpa [framesOf] using hf)
+    have h1 := h.1
+    exact ⟨by omega, ih.2.1, ih.2.2⟩
+  | lo, .frm g :: rest, h, hf => by
+    simp only [framesOf, List.cons.injEq] at hf
+    obtain ⟨rfl, rfl⟩ := hf
+    exact ⟨h.1, h.2.1, h.2.2, rfl⟩
+
+theorem achain_mono {base hi hi' : Nat} {l : List Block} (h : hi ≤ hi') (hc : AChain base hi l) :
+    AChain base hi' l := by
+  cases l with
+  | nil => exact Nat.le_trans hc h
+  | cons b rest => exact ⟨Nat.le_trans hc.1 h, hc.2⟩
+
+theorem achain_bounds {base : Nat} : ∀ {hi : Nat} {l : List Block}, AChain base hi l →
+    base ≤ hi ∧ ∀ b ∈ l, base ≤ b.addr ∧ b.addr + b.size ≤ hi
+  | _, [], h => ⟨h, fun b hb => by simp at hb⟩
+  | hi, b :: rest, h => by
+    have ih := achain_bounds h.2
+    have := h.1
+    refine ⟨by omega, fun x hx => ?_⟩
+    rcases List.mem_cons.1 hx with rfl | hr
+    · exact ⟨ih.1, h.1⟩
+    · have := ih.2 x hr
+      exact ⟨this.1, by omega⟩
+
+theorem achain_pairwise {base : Nat} : ∀ {hi : Nat} {l : List Block}, AChain base hi l →
+    l.Pairwise (fun a b => b.addr + b.size ≤ a.addr)
+  | _, [], _ => List.Pairwise.nil
+  | _, b :: rest, h => by
+    refine List.Pairwise.cons ?_ (achain_pairwise h.2)
+    intro x hx
+    exact ((achain_bounds h.2).2 x hx).2
+
+/-- model state plus the ghost record of what is live. -/
+structure G where
+  s : State
+  objs : List Obj       -- live stack objects, most recent first
+  arena : List Block    -- arena blocks handed out since the last reset, most recent first
+
+def G.init : G := ⟨State.init, [], []⟩
+
+/-- the operations of the sequential (unlocked) phase. -/
+def Op.isSeq : Op → Bool
+  | .lock | .unlock => false
+  | _ => true
+
+/-- one operation on the instrumented state: the model step plus the book-keeping of liveness
+    dictated by the API contract (a block lives until the `mj_freeStack` matching the latest
+    `mj_markStack` before its allocation; arena blocks live until the arena is reset). -/
+def gstep (c : Cfg) (g : G) (op : Op) : Res × G :=
+  let r := step c g.s op
+  match op, r.1 with
+  | .mark, .unit => (r.1, ⟨r.2, .frm ⟨r.2.pbase, g.s.pbase, top c g.s⟩ :: g.objs, g.arena⟩)
+  | .free, .unit => (r.1, ⟨r.2, if g.s.pbase = 0 then g.objs else dropToFrame g.objs, g.arena⟩)
+  | .alloc size _, .ptr a => (r.1, ⟨r.2, .blk ⟨a, size⟩ :: g.objs, g.arena⟩)
+  | .num n, .ptr a => (r.1, ⟨r.2, .blk ⟨a, mul64 n 8⟩ :: g.objs, g.arena⟩)
+  | .int n, .ptr a => (r.1, ⟨r.2, .blk ⟨a, mul64 n 4⟩ :: g.objs, g.arena⟩)
+  | .arena bytes _, .ptr a => (r.1, ⟨r.2, g.objs, ⟨a, bytes⟩ :: g.arena⟩)
+  | _, _ => (r.1, ⟨r.2, g.objs, g.arena⟩)
+
+/-- address-space sanity of an mjData arena: non-NULL, and its end (plus red zones) is below 2^64. -/
+def WFCfg (c : Cfg) : Prop := 0 < c.base ∧ c.base + c.narena + 2 * c.rz < W
+
+/-- the explicit no-wrap side condition per operation: this is the guard the code does not have. -/
+def NoWrap (c : Cfg) (s : State) : Op → Prop
+  | .alloc size al => 0 < al ∧ size + al + 2 * c.rz < W
+  | .num n => (W - 1) / 8 ≤ n ∨ n * 8 + 8 + 2 * c.rz < W
+  | .int n => (W - 1) / 4 ≤ n ∨ n * 4 + 4 + 2 * c.rz < W
+  | .arena bytes al => 0 < al ∧ s.parena + al + bytes < W
+  | _ => True
+
+/-- the safety invariant of the sequential phase. -/
+def Inv (c : Cfg) (g : G) : Prop :=
+  g.s.threadlock = false ∧ g.s.parena + g.s.pstack ≤ c.narena ∧
+  Chain (c.base + c.narena) (c.base + c.narena - g.s.pstack) g.objs ∧
+  framesOf g.objs = g.s.frames ∧ g.s.pbase = headAddr g.s.frames ∧ FramesOK g.s.frames ∧
+  AChain c.base (c.base + g.s.parena) g.arena
+
 end MjProof.Arena
